@@ -58,6 +58,7 @@ static double cv(int v, int i)
 /* contents are multiplied by `scale`: 1, or - in the float / long double builds, for the kernels that only move data -
    1 + 2^-20 resp. 1 + 2^-60, so that every element needs the full mantissa of the element type */
 static a_real scale = 1;
+static long n_scaled;
 static a_real *mat(int m, int n, int v, int which)
 {
     a_real *p = (a_real *)malloc(sizeof(a_real) * (size_t)(m * n ? m * n : 1));
@@ -151,9 +152,36 @@ int main(int argc, char **argv)
         {
             if (n_mismatch++ < 10) { printf("MISMATCH {\"k\":%d,\"dims\":[%d,%d,%d,%d],\"guard\":%d}\n", k, a, b, c, var, guard); }
         }
+        /* products again with one operand scaled by 2^-70 and the other by 2^70 (exact in every element type): the
+           mathematical product is the same array, whatever the magnitudes of the factors */
+        if (k <= 4)
+        {
+            for (int pass = 1; pass <= 2; ++pass)
+            {
+                a_real const sx = (a_real)ldexpl(1.0L, pass == 1 ? -70 : 70), sy = (a_real)ldexpl(1.0L, pass == 1 ? 70 : -70);
+                size_t const nx = (size_t)(a * b ? a * b : 1), ny = (size_t)(b * c ? b * c : 1);
+                size_t const nX = k == 1 ? nx : k == 2 ? (size_t)(a * b ? a * b : 1) : k == 3 ? (size_t)(a * c ? a * c : 1) : nx;
+                size_t const nY = k == 1 ? ny : k == 2 ? (size_t)(a * c ? a * c : 1) : k == 3 ? (size_t)(b * c ? b * c : 1) : ny;
+                for (size_t i = 0; i < nX; ++i) { X[i] *= sx; if (pass == 2) { X[i] *= sx; } }
+                for (size_t i = 0; i < nY; ++i) { Y[i] *= sy; if (pass == 2) { Y[i] *= sy; } }
+                for (int i = 0; i < ne + 2 * GUARD; ++i) { blk[i] = GVAL; }
+                switch (k)
+                {
+                case 1: a_real_mulmm((a_uint)a, (a_uint)b, (a_uint)c, X, Y, Z); break;
+                case 2: a_real_mulTm((a_uint)a, (a_uint)b, (a_uint)c, X, Y, Z); break;
+                case 3: a_real_mulmT((a_uint)a, (a_uint)b, (a_uint)c, X, Y, Z); break;
+                default: a_real_mulTT((a_uint)a, (a_uint)b, (a_uint)c, X, Y, Z); break;
+                }
+                int ok2 = 1;
+                for (int i = 0; i < ne; ++i) { if (Z[i] != (a_real)exp[i]) { ok2 = 0; } }
+                for (int i = 0; i < GUARD; ++i) { if (blk[i] != GVAL || blk[GUARD + ne + i] != GVAL) { ok2 = 0; } }
+                if (!ok2 && n_mismatch++ < 10) { printf("MISMATCH {\"k\":%d,\"dims\":[%d,%d,%d,%d],\"guard\":%d,\"scaled_pass\":%d}\n", k, a, b, c, var, guard, pass); }
+                ++n_scaled;
+            }
+        }
         free(X); free(Y); free(vec); free(blk);
     }
     for (int i = 0; i < nb; ++i) { fclose(fo[i]); }
-    printf("SUMMARY {\"events\":%ld,\"mismatch\":%ld}\n", n_events, n_mismatch);
+    printf("SUMMARY {\"events\":%ld,\"mismatch\":%ld,\"scaled\":%ld}\n", n_events, n_mismatch, n_scaled);
     return 0;
 }
